@@ -2,6 +2,7 @@
 from __future__ import annotations
 
 import ast
+import types
 
 from ..exprs import NotConst, fold, int_eval, to_sympy
 from ..guards import controlling
@@ -462,16 +463,30 @@ def run(ctx):
 
     # ---------------------------------------------------------------- R5
     xi = md.func("XL_BOMD.initialize")
-    ptdef = [st for st in ast.walk(xi) if isinstance(st, ast.Assign) and norm(st.targets[0]) == "Pt"]
-    pdef = [st for st in ast.walk(xi) if isinstance(st, ast.Assign) and norm(st.targets[0]) == "P"]
+    def _bound(key):
+        """(statement, value expression) wherever the fresh context binds `key`: a local of that name, an entry of a dict literal, a keyword of dict(...) / .update(...)"""
+        out_ = [(st, st.value) for st in ast.walk(xi) if isinstance(st, ast.Assign) and norm(st.targets[0]) == key]
+        for n_ in ast.walk(xi):
+            if isinstance(n_, ast.Dict):
+                for k_, v_ in zip(n_.keys, n_.values):
+                    if isinstance(k_, ast.Constant) and k_.value == key and not isinstance(v_, ast.Name):
+                        out_.append((md.enclosing_stmt(n_), v_))
+            if isinstance(n_, ast.Call) and (callee_attr(n_) == "update" or (isinstance(n_.func, ast.Name) and n_.func.id == "dict")):
+                for kw_ in n_.keywords:
+                    if kw_.arg == key and not isinstance(kw_.value, ast.Name):
+                        out_.append((md.enclosing_stmt(n_), kw_.value))
+        return out_
+    pt_b, p_b = _bound("Pt"), _bound("P")
+    ptdef = [types.SimpleNamespace(value=v_, stmt=st_) for st_, v_ in pt_b]
+    pdef = [types.SimpleNamespace(value=v_, stmt=st_) for st_, v_ in p_b]
     ok = bool(ptdef and pdef) and "molecule.dm" in norm(ptdef[0].value) and "self.m" in norm(ptdef[0].value) and "expand" in norm(ptdef[0].value) \
         and ".clone()" in norm(ptdef[0].value) and norm(pdef[0].value) == "molecule.dm.clone()"
     ctx.check(ok, "R5", md, xi, "XL_BOMD.initialize", "Pt", "fresh history = m independent copies of the converged density; P = copy of it",
               "fresh XL history is not m cloned copies of the converged density")
     if ptdef:
-        ctrl = controlling(md, ptdef[0])
+        ctrl = controlling(md, ptdef[0].stmt)
         conds = sorted((norm(a).replace(" ", ""), p) for a, p, _ in ctrl)
-        ctx.check(conds == [("self.step_offset>0", False)], "R5", md, ptdef[0], "XL_BOMD.initialize", ptdef[0],
+        ctx.check(conds == [("self.step_offset>0", False)], "R5", md, ptdef[0].stmt, "XL_BOMD.initialize", ptdef[0].stmt,
                   "history is rebuilt exactly when the run is fresh (step_offset == 0): every run() that restarts its step counter also resets the buffer phase",
                   f"XL history initialisation is controlled by {conds} instead of exactly `not (self.step_offset > 0)`: a run that starts its step "
                   f"counter at 0 can keep a buffer rotated by an earlier run (coefficients paired with the wrong history ages) or a resumed run can lose its history")
